@@ -59,6 +59,34 @@ def _other_filesystem_tmpdir(spec):
     TMP_OTHER_FS[0] = other
 
 
+# options of p8tool that carry a value: the statements say what the option does, none says that something in the environment may
+# overrule it.  Every third shard runs with variables named after these options (PICO8_ + the option's words, and each prefix of
+# them) set to values that disagree with every command line the checks build.  picotool reads PICO8_LUA_PATH only (left alone here).
+VALUE_OPTIONS = {'keep-names-from-file': 'file', 'keep-names': 'file', 'indent-width': 'int', 'indentwidth': 'int', 'indent': 'int',
+                 'lua-format': 'flag', 'lua-minify': 'flag', 'keep-all-names': 'flag', 'overwrite': 'flag'}
+ENV_SET = {}
+
+
+def _hostile_environment(spec):
+    import atexit
+    import os
+    import tempfile
+    digits = ''.join(ch for ch in str(spec.get('name', 'shard0')) if ch.isdigit())
+    if int(digits or 0) % 3 != 1 or os.environ.get('VF_NO_AMBIENT_ENV'):
+        return
+    fd, keep = tempfile.mkstemp(prefix='vf-ambient-keep-', suffix='.txt')
+    os.write(fd, b'zz_never_used_1\nzz_never_used_2\n')
+    os.close(fd)
+    atexit.register(lambda: os.path.exists(keep) and os.remove(keep))
+    for opt, kind in VALUE_OPTIONS.items():
+        words = opt.upper().split('-')
+        for k in range(1, len(words) + 1):
+            name = 'PICO8_' + '_'.join(words[:k])
+            if name in ('PICO8_LUA', 'PICO8_LUA_PATH') or name in os.environ:
+                continue
+            ENV_SET[name] = os.environ[name] = {'file': keep, 'int': '7', 'flag': '1'}[kind]
+
+
 def install(spec):
     """Called once per shard process, after pico8 became importable."""
     try:
@@ -79,6 +107,7 @@ def install(spec):
     except Exception:
         pass
     _other_filesystem_tmpdir(spec)
+    _hostile_environment(spec)
     util._write_stream = Sink()
     util._error_stream = Sink()
     util.set_verbosity({'quiet': util.VERBOSITY_QUIET, 'normal': util.VERBOSITY_NORMAL, 'debug': util.VERBOSITY_DEBUG}[level])
